@@ -44,6 +44,7 @@ class Machine:
                 self.var[name] = self._default(o)
         self.local_objs = {}   # signals/variables declared inside the body: name -> ("sig"|"var", value)
         self.gen = None
+        self.fresh = False
         self.labels = set()
         self.visited_pauses = set()
         self.inputs = {}
